@@ -112,8 +112,29 @@ def opTxtRead (j : Json) : M Json := do
     | none => none'
   | _ => throw s!"txt_read kind {kind}"
 
-/-- the JSON text layer: the text the model writes for the object (dict orders of the live object
-    are passed in as `dorder`), and the verdict of the bracket/quote scanner on the given texts -/
+/-- a JSON value shipped as nested arrays so that the key order survives:
+    `["s", str]`, `["i", int]`, `["a", v, …]`, `["o", [key, v], …]` -/
+partial def jvOf (j : Json) : M JsonText.JV := do
+  let a ← j.getArr?
+  let tag ← a[0]!.getStr?
+  match tag with
+  | "s" => pure (.str (← a[1]!.getStr?).toList)
+  | "i" => pure (.int (← a[1]!.getInt?))
+  | "a" => do
+    let xs ← (a.toList.drop 1).mapM jvOf
+    pure (.arr xs)
+  | "o" => do
+    let kvs ← (a.toList.drop 1).mapM fun kv => do
+      let p ← kv.getArr?
+      pure ((← p[0]!.getStr?).toList, ← jvOf p[1]!)
+    pure (.obj kvs)
+  | _ => throw s!"json value tag {tag}"
+
+/-- the JSON text layer: (i) the text of the model's own `to_dict` shape for the object (dict
+    orders of the live object passed in as `dorder`, `indent=4`); (ii) the text the encoder model
+    writes for the value that was actually written (`jv`, with the indent width read off the file):
+    the file is the `dumps` of a dict, which is all the truncation theorem needs; (iii) the verdict
+    of the bracket/quote scanner on the given texts -/
 def opJsonText (j : Json) : M Json := do
   let n ← getNat j "n"
   let kind ← (← j.getObjVal? "kind").getStr?
@@ -122,6 +143,12 @@ def opJsonText (j : Json) : M Json := do
   let order : List (Fin n) := ((← asNats (getArrD j "dorder")).filterMap (ref? n))
   let texts ← (getArrD j "texts").toList.mapM fun e => e.getStr?
   let opens := Json.arr (texts.map fun t => Json.bool (JsonText.openAtEnd t.toList)).toArray
+  let ind := (match (j.getObjVal? "indent").toOption with | some x => (x.getNat?.toOption.getD 4) | none => 4)
+  let asWritten ← (match (j.getObjVal? "jv").toOption with
+    | some x => do
+      let v ← jvOf x
+      pure (some (JsonText.dumps ind v, (match v with | .obj _ => true | _ => false)))
+    | none => pure none)
   match ← graphOf j n with
   | .error _ => pure err
   | .ok G =>
@@ -135,7 +162,6 @@ def opJsonText (j : Json) : M Json := do
       | "orientation" => do
         match Orient.new G (← pairsOf (getArrD j "orient")) with
         | .ok o =>
-          -- pairs in the order of the unordered edge list, each in its stored direction
           let ps := G.edgeList.filterMap fun (a, b, _) =>
             if o.st a b = 1 then some (nm a, nm b) else if o.st b a = 1 then some (nm b, nm a) else none
           pure (some (JsonText.orientationJV nameL edges ps))
@@ -147,6 +173,10 @@ def opJsonText (j : Json) : M Json := do
       | _ => throw s!"json_text kind {kind}")
     match v with
     | none => pure err
-    | some v => pure <| Json.mkObj [("text", jStr (JsonText.dumps v)), ("open", opens), ("prefix_not_none", jNat 0)]
+    | some v =>
+      let shape := JsonText.dumps 4 v
+      pure <| Json.mkObj [("text", jStr (match asWritten with | some (t, _) => t | none => shape)),
+        ("shape_text", jStr shape), ("is_dict", Json.bool (match asWritten with | some (_, b) => b | none => true)),
+        ("open", opens), ("prefix_not_none", jNat 0)]
 
 end Drv
